@@ -148,4 +148,51 @@ Proof using u_range fadd_ok fsub_ok fmul_ok fdiv_ok fadd_0_mul.
     rewrite (RowsL i Hi). ring.
 Qed.
 
+(* Higham Lemma 3.3 for this constant: 3 gam n + gam n ^2 <= gam (3n) *)
+Lemma gam_three (n : nat) : INR (3 * n) * u < 1 -> 3 * gam n + gam n * gam n <= gam (3 * n).
+Proof using u_range.
+  intros H3. rewrite mult_INR in H3. cbn [INR] in H3. pose proof (pos_INR n) as Pn.
+  assert (Hn : INR n * u < 1) by nra.
+  pose proof (gam_nonneg u u_range n Hn) as G0.
+  pose proof (gam_1plus u n Hn) as E1.
+  assert (H3' : INR (3 * n) * u < 1) by (rewrite mult_INR; cbn [INR]; lra).
+  pose proof (gam_1plus u (3 * n) H3') as E3. rewrite mult_INR in E3. cbn [INR] in E3.
+  (* (1 + gam n)^3 = 1/(1 - n u)^3 <= 1/(1 - 3 n u) = 1 + gam (3n) *)
+  assert (H3t : 3 * (INR n * u) < 1) by lra.
+  set (t := INR n * u) in *. assert (T0 : 0 <= t) by (unfold t; nra).
+  assert (C : (1 + gam n) * (1 + gam n) * (1 + gam n) <= 1 + gam (3 * n)).
+  { rewrite E1, E3. replace ((1 + 1 + 1) * INR n * u) with (3 * t) by (unfold t; ring).
+    replace (/ (1 - t) * / (1 - t) * / (1 - t)) with (/ ((1 - t) * (1 - t) * (1 - t))) by (field; lra).
+    apply Rinv_le_contravar; [lra|]. nra. }
+  nra.
+Qed.
+
+Corollary solve_lu_backward_error_gam3n_lemma (m lu perm : matrix AR) (piv : nat) (b x : list R) :
+  wf m -> INR (3 * rows m) * u < 1 ->
+  lu_decomp m = Ok (lu, piv, perm) ->
+  (forall k, (k < rows m)%nat -> rentry lu k k <> 0) ->
+  solve_lu m b = Ok x ->
+  length x = rows m /\
+  exists tau : nat -> nat,
+    (forall r, (r < rows m)%nat -> (tau r < rows m)%nat) /\
+    (forall r r', (r < rows m)%nat -> (r' < rows m)%nat -> tau r = tau r' -> r = r') /\
+    exists (dA : nat -> nat -> R) (db : nat -> R),
+      (forall i c, (i < rows m)%nat -> (c < rows m)%nat ->
+         Rabs (dA i c) <= gam (3 * rows m) * Rsum (rows m) (fun k => Rabs (tril1 lu i k) * Rabs (triu lu k c))) /\
+      (forall i, (i < rows m)%nat -> Rabs (db i) <= gam (rows m) * Rabs (nth (tau i) b 0)) /\
+      (forall i, (i < rows m)%nat ->
+         Rsum (rows m) (fun c => (rentry m (tau i) c + dA i c) * nth c x 0) = nth (tau i) b 0 + db i).
+Proof using u_range fadd_ok fsub_ok fmul_ok fdiv_ok fadd_0_mul.
+  intros W H3 ELU Dg E.
+  assert (Hn : INR (rows m) * u < 1).
+  { rewrite mult_INR in H3. cbn [INR] in H3. pose proof (pos_INR (rows m)). nra. }
+  destruct (solve_lu_backward_error_lemma m lu perm piv b x W Hn ELU Dg E)
+    as (Lx & tau & T1 & T2 & dA & db & HdA & Hdb & Eq).
+  split; [exact Lx|]. exists tau. split; [exact T1|]. split; [exact T2|]. exists dA, db.
+  split; [|split; [exact Hdb|exact Eq]].
+  intros i c Hi Hc. eapply Rle_trans; [apply (HdA i c Hi Hc)|].
+  apply Rmult_le_compat_r; [|now apply gam_three].
+  apply Rsum_nonneg. intros k Hk. apply Rmult_le_pos; apply Rabs_pos.
+Qed.
+
 End SolveLU.
